@@ -1,6 +1,7 @@
 import FoxModel.Util
 import FoxModel.Spec.Route
 import FoxModel.Spec.Store
+import FoxModel.Spec.Grammar
 import FoxModel.Model.Lookup
 import FoxModel.Model.Tree
 import FoxModel.Model.WF
@@ -16,6 +17,8 @@ def mkRoute (pat : Bytes) (flags hid : Nat) : Option Route :=
   match tokenize pat with
   | none => none
   | some toks =>
+    -- registration validates the pattern first (documented grammar at the default limits, property C10)
+    if !Spec.validToks ⟨65535, 65535⟩ toks then none else
     let h := toks.findIdx (· == .lit SLASH)
     some { hid := hid, pattern := toks, hostToks := h, ignoreTS := flags % 2 == 1, redirectTS := (flags / 2) % 2 == 1 }
 
@@ -103,7 +106,7 @@ def stepBase (st : St) (op : String) : St :=
        | some t' => ({ st with tree := t', store := store' }.emit "ok" sStr).tag "upd-ok"
        | none => ({ st with store := store' }.emit "notfound" sStr).tag "upd-notfound")
   | ["D", m, pat] =>
-    (match tokenize (fromHex! pat) with
+    (match (tokenize (fromHex! pat)).filter (Spec.validToks ⟨65535, 65535⟩) with
      | none => st.emit "invalid" "invalid"
      | some toks =>
        let (store', so) := st.store.delete (ascii m) toks
